@@ -420,8 +420,9 @@ pub fn run_case(c: &Case) -> Result<Outcome, (String, String)> {
 pub fn cases(tier: Tier) -> Vec<Case> {
 	let th = tier.is_thorough();
 	let mut v = Vec::new();
-	for hop_delta in [69u32, 70, 71, 72, 73, 74, 100] {
-		for final_delta in [38u32, 40, 41, 42, 43, 60] {
+	let (hops, finals): (Vec<u32>, Vec<u32>) = if th { ((60..=80).chain([100, 144]).collect(), (30..=50).chain([60, 100]).collect()) } else { (vec![69, 70, 71, 72, 73, 74, 100], vec![38, 40, 41, 42, 43, 60]) };
+	for hop_delta in hops {
+		for final_delta in finals.iter().copied() {
 			v.push(Case { kind: Kind::ForwardBoundary { hop_delta, final_delta }, miner_delay: 0 });
 		}
 	}
@@ -435,7 +436,7 @@ pub fn cases(tier: Tier) -> Vec<Case> {
 	for blocks_late in lates {
 		v.push(Case { kind: Kind::LateArrival { blocks_late }, miner_delay: 0 });
 	}
-	let delays: Vec<u32> = if th { vec![0, 1, 6, 12, 17] } else { vec![0, 17] };
+	let delays: Vec<u32> = if th { (0..=17).collect() } else { vec![0, 17] };
 	for d in delays.iter() {
 		v.push(Case { kind: Kind::SilentDownstream, miner_delay: *d });
 		v.push(Case { kind: Kind::SilentUpstream, miner_delay: *d });
@@ -443,7 +444,7 @@ pub fn cases(tier: Tier) -> Vec<Case> {
 		for o in offs {
 			v.push(Case { kind: Kind::DownstreamClaimsAt { blocks_after_forward: o }, miner_delay: *d });
 		}
-		let offs2: Vec<u32> = if th { vec![0, 1, 5, 10, 15, 19, 20] } else { vec![0, 10, 19] };
+		let offs2: Vec<u32> = if th { (0..=21).collect() } else { vec![0, 10, 19] };
 		for o in offs2 {
 			v.push(Case { kind: Kind::DownstreamClaimsOnChainAt { blocks_after_forward: o }, miner_delay: *d });
 		}
